@@ -352,3 +352,32 @@ func eventsFrom(bc *blockchain.Blockchain, from uint64, addrs []felt.Address) st
 	s := sha256.Sum256([]byte(strings.Join(all, "\n")))
 	return fmt.Sprintf("%d events/%s", len(all), hex.EncodeToString(s[:8]))
 }
+
+// eventPages follows continuation tokens from tok (nil: from the start) over [from, head] with
+// the given chunk size and returns the events of at most maxPages pages and the token after them.
+func eventPages(bc *blockchain.Blockchain, addrs []felt.Address, from uint64, tok *blockchain.ContinuationToken, chunk uint64, maxPages int) (evs []string, next *blockchain.ContinuationToken, err error) {
+	f, err := bc.EventFilter(addrs, nil, nil)
+	if err != nil {
+		return nil, nil, err
+	}
+	defer f.Close()
+	if err := f.SetRangeEndBlockByNumber(blockchain.EventFilterFrom, from); err != nil {
+		return nil, nil, err
+	}
+	for page := 0; page < maxPages; page++ {
+		got, nx, err := f.Events(tok, chunk)
+		if err != nil {
+			return evs, tok, err
+		}
+		for _, e := range got {
+			evs = append(evs, fmt.Sprintf("%d/%s/%s/%d/%d/%v/%v/%v", e.BlockNumber, e.BlockHash.String(), e.TransactionHash.String(),
+				e.TransactionIndex, e.EventIndex, e.From, e.Keys, e.Data))
+		}
+		if nx.IsEmpty() {
+			return evs, nil, nil
+		}
+		nt := nx
+		tok = &nt
+	}
+	return evs, tok, nil
+}
